@@ -161,3 +161,51 @@ def step (s : St) : Op → St × String
 def run (s : St) (ops : List Op) : St := ops.foldl (fun st op => (step st op).1) s
 
 end Registry
+
+/-! ### registry + datastore: removal and existence reports (C10)
+`artifacts` = datasets whose file is actually present under the datastore root. -/
+namespace Registry
+
+structure Repo where
+  reg : St := {}
+  artifacts : List Nat := []
+  deriving Repr
+
+/-- `Butler.put`: insert into the registry, write the artifact, record it in the datastore. -/
+def Repo.put (r : Repo) (id ty key run : Nat) : Repo × String :=
+  match insert r.reg id ty key run with
+  | (s, "ok") => ({ reg := (store s id).1, artifacts := id :: r.artifacts }, "ok")
+  | (_, e) => (r, e)
+
+/-- `pruneDatasets(refs, unstore=True)` (+ trash emptying): the datastore forgets them and their artifacts go. -/
+def Repo.unstoreMany (r : Repo) (ids : List Nat) : Repo :=
+  { reg := { r.reg with stored := r.reg.stored.filter (fun d => !ids.contains d) },
+    artifacts := r.artifacts.filter (fun d => !ids.contains d) }
+
+/-- `pruneDatasets(refs, purge=True, unstore=True, disassociate=True)`. -/
+def Repo.purge (r : Repo) (ids : List Nat) : Repo × String :=
+  let r1 := r.unstoreMany ids
+  match removeDatasets r1.reg ids with
+  | (s, "ok") => ({ r1 with reg := s }, "ok")
+  | (_, e) => (r, e)
+
+/-- `removeRuns([run], unstore=True)`. -/
+def Repo.removeRun (r : Repo) (c : Nat) : Repo × String :=
+  match r.reg.ctype c with
+  | some .run =>
+    let ids := (r.reg.datasets.filter (·.run == c)).map (·.id)
+    let r1 := r.unstoreMany ids
+    match removeCollection r1.reg c with
+    | (s, "ok") => ({ r1 with reg := s }, "ok")
+    | (_, e) => (r, e)
+  | some _ => (r, "err CollectionTypeError")
+  | none => (r, "err MissingCollectionError")
+
+/-- Somebody deletes the file behind the datastore's back. -/
+def Repo.extDelete (r : Repo) (id : Nat) : Repo := { r with artifacts := r.artifacts.filter (· != id) }
+
+/-- `Butler.exists(ref, full_check=True)` as (RECORDED, DATASTORE, _ARTIFACT). -/
+def Repo.existsFlags (r : Repo) (id : Nat) : Bool × Bool × Bool :=
+  ((r.reg.ds id).isSome, r.reg.stored.contains id, r.reg.stored.contains id && r.artifacts.contains id)
+
+end Registry
